@@ -90,6 +90,17 @@ InvOutputIsSubstitution ==
     (Done /\ res.kind = "ok") =>
         LET c == CHOOSE c \in Range(FamSeq(fam)) : c.l = res.sel IN res.out = Subst(c.o, SigmaOf(res.bind))
 
+(* the structural subsumption test is sound on the checked universe: if GenC(P, Q) then P accepts whatever Q accepts *)
+ASSUME \A i, j \in 1..Len(AllC) : GenSoundOn(AllC[i], AllC[j])
+
+(* formula-independent consequence of "most specific" (also part of AFail, stated on its own here): the selected
+   candidate is not strictly more general than another candidate of the family that matches the arguments *)
+InvSubsumption ==
+    (Done /\ res.kind = "ok") =>
+        LET F == Range(FamSeq(fam))
+            s == CHOOSE c \in F : c.l = res.sel
+        IN \A q \in F : (q # s /\ MatchesA(q, Args) /\ MoreGeneral(s, q)) => SubsumptionNotAsserted(s, q)
+
 (* the pools, printed once so that the glue can render candidates / arguments in the driver's language *)
 ASSUME PrintT(<<"POOL", ToJson([c |-> AllC, au |-> ArgsU, ab |-> ArgsB])>>)
 
